@@ -5,7 +5,7 @@ VARIABLE l
 TraceInit == Init /\ l = 1
 Reset ==
   /\ ocount' = [o \in Orig |-> 0] /\ owakes' = [o \in Orig |-> 0] /\ cur' = CHOOSE o \in Orig : TRUE
-  /\ inPoll' = FALSE /\ touched' = 0 /\ seen' = -1
+  /\ inPoll' = FALSE /\ touched' = 0 /\ seen' = -1 /\ waking' = [t \in Thread |-> <<>>]
   /\ rec' = [r \in Rec |-> NoRec]
   /\ fw' = [w \in FW |-> [r |-> 0, own |-> 1]]
 TraceNext ==
